@@ -59,4 +59,38 @@ theorem whereIn_congr (dim : String) {l₁ l₂ : List (Option DimVal)}
   · have := (h (k.get dim)).mp (by simpa using h1)
     simp [this] at h2
 
+theorem lookup_filter_names (names : List String) (n : String) (hn : n ∈ names) (k : DKey) :
+    List.lookup n (k.filter (fun p => names.contains p.1)) = List.lookup n k := by
+  induction k with
+  | nil => rfl
+  | cons p k ih =>
+    obtain ⟨a, v⟩ := p
+    by_cases hc : names.contains a = true
+    · simp only [List.filter_cons, hc, if_true, List.lookup_cons]
+      cases n == a
+      · exact ih
+      · rfl
+    · have hne : (n == a) = false := by
+        have : n ≠ a := fun e => hc (by simpa [e] using hn)
+        simpa using this
+      simp only [List.filter_cons, hc, Bool.false_eq_true, if_false, List.lookup_cons, hne, ih]
+
+/-- when the table keeps the partition keys the partition of a point is the partition of its
+    stored row key -/
+theorem pkProj_storedKey (tgb pk : List String) (h : partitionKeysKept tgb pk = true) (k : DKey) :
+    pkProj pk (storedKey tgb k) = pkProj pk k := by
+  unfold partitionKeysKept at h
+  unfold storedKey
+  by_cases he : tgb.isEmpty = true
+  · simp [he]
+  · simp only [he, Bool.false_or, Bool.and_eq_true, Bool.not_eq_true'] at h
+    obtain ⟨hpk, hall⟩ := h
+    simp only [he, Bool.false_eq_true, if_false, pkProj, hpk]
+    apply filterMap_congr'
+    intro n hn
+    have hmem : n ∈ tgb := by
+      have := List.all_eq_true.mp hall n hn
+      simpa using this
+    simp only [DKey.get, lookup_filter_names tgb n hmem k]
+
 end Zeno.PlanLemmas
